@@ -9,7 +9,8 @@ import values as V
 
 COQ_FILES = ("Base/Bytes.v", "Extracted/ConstHash.v", "L0_Hash/DdsHash.v", "L1_Args/ArgCtx.v", "L1_Args/RunArgs.v",
              "L1_Args/ArgProofs.v", "Properties/C13.v")
-EXTRACTED = ("ConstHash",)
+PROPERTY_FILES = ("C13", "C13g")
+EXTRACTED = ("ConstHash", "GenArgCtx")
 ALLOWED_AXIOMS = ()
 
 PRELUDE = """From Coq Require Import List String ZArith NArith.
